@@ -135,7 +135,11 @@ fn process_message(receiver: &mut Receiver<String>, writer: &mut BufWriter<&TcpS
     match receiver.try_next() {
         Ok(message_opt) => match message_opt {
             Some(message) => {
-                writer.write_fmt(format_args!("{}", message)).unwrap();
+                // The peer may be gone already: the read side notices and cleans the session up
+                if let Err(e) = writer.write_fmt(format_args!("{}", message)) {
+                    log::warn!("process_message write Error: {}", e);
+                    return;
+                }
                 match writer.flush() {
                     Ok(_n) => (),
                     Err(e) => log::warn!("process_message Error: {}", e),
